@@ -62,6 +62,18 @@ CHECKS = {
  "C16": D("runtime monitoring under the Go race detector: scheduler idle-tick hook invariant (fixpoint = deadlock, logical time), bounded-progress watchdog, work-conservation check at fresh quiescent points, cycle/definition-error rule, topological check of DepthFirstSort",
           "All public-API construction histories up to length 3 (quick) / 4 (thorough) over 3 tasks plus random longer ones (re-adds, duplicate/self edges, cycles, nil tasks) are built and run to completion or to a verdict; random DAGs for work conservation.",
           "6 (C16)"),
+ "C17": P("runtime monitor: candidate-set oracle computed from the program spec over the list written by the real completion path (in process via the verif setters and by a real driver process leaving through os.Exit) + acceptance replay through the real parser",
+          "Random trees x COMP_LINE shapes x bash/zsh: the offered options must be exactly the keys of the level reached that start with the typed text, other words exactly the subcommands/static suggestions with the prefix plus what dynamic functions return, `--name=` exactly the suggested/valid values; sorted; exit status 124 exactly once; no CommandFn; every offered option/command is replayed through the real parser.",
+          "5 (C17), note N2"),
+ "C18": P("runtime monitor: structural counter over sections/entries of the help text produced by the real library + three-way equality (help option, help command, Help())",
+          "All 12 option kinds stratified, aliases, required/env/multi-line descriptions/argument names, trees with wrappers; every level of every generated tree is checked: one entry per option with all aliases, required section, defaults, env, synopsis brackets, commands once with description.",
+          "5 (C18)"),
+ "C19": P("runtime monitoring: recover()-based panic monitor, error-contract and exit-path monitors, on-disk journal + bounded-progress watchdog; seeded hostile generator and Go native coverage-guided fuzzing as workload generators",
+          "Hostile byte strings, 1 MiB tokens, 10^5-letter bundles, 10^5 tokens against 16 fixed definitions and 7 entry points, then coverage-guided fuzzing of two targets; a panic, a non-nil remaining with an error, a completion that does not leave through the exit path or a reproducible stall is a violation.",
+          "5 (C19)"),
+ "C20": P("runtime monitor: equality of the complete outcome tuple over 25 fresh in-process repetitions and over separate driver processes",
+          "Definitions with >=2 entries in every table and inputs that make >=2 alternatives eligible (missing required options at Parse and Dispatch level, unknown options, ambiguity candidates, help of every level, completion lists) are executed repeatedly; any difference in values, remaining, error text, warnings, help text or completion list is a violation.",
+          "5 (C20)"),
  "C12": P("runtime monitor: CLI > env > default precedence table over values read back after real definitions (env set) and Parse executions",
           "The kind x env-class x CLI-class x default x pointer/Var grid is enumerated completely in quick, hostile texts added; value/Called/CalledAs asserted except the two cases the statement leaves open (listed in DESIGN N3).",
           "5 (C12)"),
